@@ -362,6 +362,7 @@ def run(chk, replay=None):
     obs = [impl.observe(c) for c in cases]
     model = lib.coq_eval_sharded("C14", HEADER, "run", [coq_case(c) for c in cases], per=60)
     default_nodes_probe(chk, impl, cases[0])
+    hetero_probe(chk, impl, cases, r)
     for case, o, mo in zip(cases, obs, model):
         feats = features(case)
         chk.case(json.dumps(small(case), sort_keys=True), [f for f in feats if f != "multi-episode"] or (["multi-episode"] if "multi-episode" in feats else []),
@@ -380,6 +381,46 @@ def run(chk, replay=None):
                     "BaseNode/Connection objects; they are not produced by running an asynchronous graph"]
     chk.notes += ["times are multiples of 1/64 s (exact in binary64): compared exactly as integer ticks; the float pad value -1.0 is "
                   "canonicalised to -1", "dict orders are canonicalised by sorting keys; jax.tree_util sorts dict keys as well"]
+
+
+def hetero_probe(chk, impl, cases, r):
+    """experiments whose episodes did not all record the same connections (a sensor unplugged in one episode): ExperimentRecord.filter is the
+    per-episode EpisodeRecord.filter - no episode loses (or gains) a recorded connection because of what ANOTHER episode recorded"""
+    done = 0
+    for case in cases:
+        if done >= (40 if chk.tier == "quick" else 400): break
+        if len(case["eps"]) < 2 or case.get("wild"): continue
+        cand = [(s, rc) for (s, rc, _) in case["conns"] if s in case["sel"] and rc in case["sel"] and all(s in ep[rc]["ins"] for ep in case["eps"])]
+        if not cand: continue
+        s_, rc_ = r.choice(cand)
+        c2 = json.loads(json.dumps(case)); c2["conns"] = [tuple(x) for x in c2["conns"]]
+        j = r.choice([0, 0, len(c2["eps"]) - 1, r.randrange(len(c2["eps"]))])
+        del c2["eps"][j][rc_]["ins"][s_]
+        try:
+            nodes, eps = impl.build(c2)
+        except Exception:  # noqa
+            chk.feat("hetero:build-unsupported"); continue
+        sel = {n: nodes[n] for n in c2["sel"]}
+        ex = impl.rb.ExperimentRecord(episodes=eps)
+        done += 1
+        for flag in (True, False):
+            try:
+                per = [impl.record(c2, e.filter(sel, filter_connections=flag)) for e in eps]
+            except Exception:  # noqa
+                chk.feat("hetero:episode-filter-raises"); continue
+            chk.traces_impl += 1; chk.feat("hetero:experiment-filter-compared")
+            try:
+                xs = [impl.record(c2, e) for e in ex.filter(sel, filter_connections=flag).episodes]
+            except Exception as e:  # noqa
+                chk.violation("filter-raises", f"ExperimentRecord.filter(nodes, filter_connections={flag}) raises {type(e).__name__}: {str(e)[:120]} although every "
+                              f"episode filters on its own (episode {j} did not record the connection {s_}->{rc_})", dict(case=small(c2), dropped=[j, s_, rc_])); continue
+            if xs != per:
+                i = next(i for i in range(len(per)) if i >= len(xs) or xs[i] != per[i])
+                chk.violation(f"filter-differs:xfilter:filter_connections={flag}", f"ExperimentRecord.filter(nodes, filter_connections={flag}): episode {i} is not "
+                              f"EpisodeRecord.filter of that episode (episode {j} of the experiment did not record the connection {s_}->{rc_}; the other episodes did): "
+                              f"ExperimentRecord.filter keeps inputs {[(nd[0], [x[0] for x in nd[3]]) for nd in (xs[i] if i < len(xs) else [])]}, EpisodeRecord.filter keeps "
+                              f"{[(nd[0], [x[0] for x in nd[3]]) for nd in per[i]]} (node id, sender ids)", dict(case=small(c2), dropped=[j, s_, rc_]))
+    chk.case("hetero-experiments", ["episodes-with-different-recorded-connections"] if done else [], None)
 
 
 def default_nodes_probe(chk, impl, case):
